@@ -1,8 +1,8 @@
 SPECIFICATION Spec
 CONSTANTS
   EmitEdges = TRUE
-  Reqs = "all"
-  MaxReq = 2
+  Reqs = "plain"
+  MaxReq = 4
   Mut = "none"
 VIEW view
 INVARIANTS TypeOK StateSane
